@@ -13,7 +13,8 @@ EXPLANATION = (
     "http_version(); there is exactly one such site in the crate and it is outside any cycle of the "
     "header parser; Headers.expect is only ever set to true, under the Expect arm with the trimmed "
     "value == \"100-continue\"; the server turns to OUT interest when a read leaves output pending. "
-    "the Expect arm is selected by the lower-cased, trimmed header name; a queued response is discarded only by clear_write_buffer. "
+    "the Expect arm is selected by the lower-cased, trimmed header name; a queued response is discarded only by clear_write_buffer; "
+    "after it has been written the connection listens again and is closed only when the write failed. "
     "Decides these clauses; exactly-once over all segmentations is not decided."
 )
 TRUSTED = ["VecDeque::push_back"]
